@@ -135,7 +135,7 @@ def run(
     for name, text in (extra_files or {}).items():
         (workdir / name).write_text(text, encoding="utf-8")
     (workdir / "jtmp").mkdir()
-    jopts = [f"-Xmx{heap}", "-XX:+UseParallelGC", f"-Djava.io.tmpdir={workdir / 'jtmp'}"]
+    jopts = [f"-Xmx{heap}", "-Xss64m", "-XX:+UseParallelGC", f"-Djava.io.tmpdir={workdir / 'jtmp'}"]
     if dfs_queue:
         jopts.append("-Dtlc2.tool.queue.IStateQueue=StateDeque")
     cmd = ["java", *jopts, "-cp", JAR, "tlc2.TLC", "-metadir", str(workdir / "meta"),
